@@ -179,10 +179,9 @@ func (ls *listenServer) route(r *core.Msg, slot int32) (string, bool) {
 			liveSlaves = append(liveSlaves, v.Addr)
 		}
 
-		if len(liveSlaves) == 0 {
-			continue
-		}
+	}
 
+	if len(liveSlaves) > 0 {
 		return liveSlaves[rand.Intn(len(liveSlaves))], true
 	}
 
